@@ -66,10 +66,10 @@ Proof.
   { apply Hdone. rewrite skipn_length. cbn [length]. lia. }
   destruct (negb (length w0 =? 0)) eqn:B7.
   { apply negb_true_iff, Nat.eqb_neq in B7.
-    destruct (starts_with _ w0); [apply Hdone; lia|]. destruct (word_numeric_ci w0); [discriminate|].
+    destruct (starts_with _ w0); [apply Hdone; lia|].
     destruct (valid_label w0); [apply Hdone; lia | discriminate]. }
   destruct ((c =? 46)%Z && negb (length w1 =? 0)) eqn:B8.
-  { destruct (starts_with _ (c :: w1)); [apply Hdone; lia|]. destruct (word_numeric_ci (c :: w1)); [discriminate|].
+  { destruct (starts_with _ (c :: w1)); [apply Hdone; lia|].
     destruct (valid_label (c :: w1)); [apply Hdone; lia | discriminate]. }
   destruct r as [|ch [|q2 rest0]]; cbn [length] in *.
   - destruct ((c =? 62)%Z || (c =? 60)%Z); [discriminate|]. destruct (is_space c); discriminate.
